@@ -11,6 +11,18 @@ POOL_TECH = 'Coq proof (transition-system invariants by induction over all actio
 LANG_NOTE = "Trusted: Coq kernel; the hand-written interpreter model (Lang/Store.v, Sem.v) whose fidelity is established only by the correspondence run (outcome class, value, cited positions, calls with dynamic argument types, whole host store, and the listener-built tree compared node by node with the grammar's reading of the generated text); the assumed table of reflect primitives; IEEE-754 binary64 semantics of Go's float64 (the model runs on Coq primitive floats; theorems quantify over any float_ops); python float() = strconv.ParseFloat on the literals used. No axioms in the theorems (the primfo instance shows Coq's primitive-float constants in Print Assumptions of cases files only)."
 LANG_TECH = 'Coq proof over a hand-written executable model of the interpreter (operators, expression nodes, statements, data context) + model/implementation correspondence on generated rule texts evaluated by vm_compute inside Coq, including listener-tree / position comparison'
 CLAIMS = {
+ "C03": {
+  "text": 'Partial (relative to an assumed table of reflect primitives). Theorems (Props/C03.v, 69, closed, for every float_ops): reads of injected scalars, fields (one and two levels), map entries (missing key = zero value) and slice elements return the current value; a write to a struct field / pointer scalar stores set_conv / set_single of the value, which under the explicit guard `representable` is the value of the target kind with the same mathematical value (swrap/uwrap identities for all widths, cross-class int/uint/float), and changes nothing else (frame lemmas on the injected table, the other fields, locals, trace); container element writes change exactly that element (wanted coercion); calls convert arguments positionally to the declared parameter kinds, record exactly the received arguments and yield the first result; an injected name always shadows a local. Guard-needed theorems show the non-representable branches (negative to unsigned, string to int, 300 into int8 wraps to 44, non-finite float). Tie: 1093 rule texts (16 field paths x 5 source classes, pointer scalars of 14 kinds, maps/slices/arrays direct and by pointer, key coercion and index faults, every catalogue function x argument class, methods, three-level calls, shadowing, random programs), comparing returned values, received arguments with dynamic types and the WHOLE host store afterwards.',
+  "note": LANG_NOTE,
+  "technique": LANG_TECH},
+ "C09": {
+  "text": 'Partial. Proved (Props/C09.v, 17, closed): with the recover at the rule entry point no rule execution of the model yields a panic (and without it `if 5 {}` does — so the recover is what contains it); every model function is total (termination by construction), a for loop evaluates its condition at most 10000 times; conc children never let a panic out; engine level: every entry point returns nil or an error for every configuration, runs the other rules as its error policy prescribes (hand_sound) and later calls are unaffected. Established by translator + observation: T1 (every fan-out child signals its WaitGroup on every path: goBody shape); fault matrix of 31 fault classes x 12 construct positions (+ forRange / unbounded-loop / unassignable-target shapes) whose predicted outcome (value / error with cited positions) must be what the call returned, and 660 engine calls (21 entry points x 5 faulty rule kinds x 4 positions x flags) in child processes. Observed, not proved: that the real process does not crash or hang.',
+  "note": LANG_NOTE,
+  "technique": LANG_TECH},
+ "C18": {
+  "text": "Theorems (Props/C18.v, 14, closed): conc_run runs EVERY child exactly once whatever the others do and fails, after all of them, iff some child failed (conc_fold characterisation), never panics; over ALL interleavings of the children's start/end events every child has started and ended before the statement after the block starts, each exactly once (Interleave / Subseq / Permutation); for children that respect and commute on the visible state the failure flag and the final state are independent of the order (generic permutation theorem + a proved instance: assignments to distinct non-injected locals). Tie: 84 blocks of 0-6 children drawn from 9 shapes (+ one failing child), each also with a child held at a gate: the driver checks exactly-once and join-before-next on the global call order, Coq compares outcome class, cited positions, returned value and host objects.",
+  "note": LANG_NOTE,
+  "technique": LANG_TECH},
  "C01": {
   "text": "Theorems (Props/C01.v, 49, closed, for every float_ops): integer + - * wrap at 64 bits (mixed signed/unsigned included), / truncates, division by zero of any class fails, a float operand promotes to float64, + concatenates strings, ill-typed arithmetic never yields a value; integer comparisons are exact over all of Z (signed against unsigned included), float comparisons use the float order, strings lexicographic, booleans only == / !=; && || ! only on booleans; every expression node yields a value only if all its operands did (both operands always evaluated, left first) and errors propagate; @name/@id/@desc/@sal. Precedence and left-associativity are tied to the real parser by correspondence: all operator pairs and 150 (thorough: all) triples printed without parentheses, the listener's tree compared with the grammar's reading; plus 14x14 operand kinds x operators at boundary values, random trees. Partial only in that the grammar reading (flat_to_tree) lives in the generator, not in a proved parser.",
   "note": LANG_NOTE,
@@ -80,7 +92,7 @@ CLAIMS = {
   "note": "Trusted: Coq kernel; the hand-written model's fidelity is established only by the correspondence run (261+ histories quick, 3000+ thorough; generator and harness are python/Go); Go slices modelled as lists; rule bodies identified by the integer they return. No axioms.",
   "technique": "Coq proof (invariant + refinement by induction over histories) + model/implementation correspondence evaluated by vm_compute inside Coq"},
 }
-PENDING = "check not built yet in this session (design in DESIGN.md section 5); will be claimed when its model, theorems and correspondence run exist"
+PENDING_UNUSED = "check not built yet in this session (design in DESIGN.md section 5); will be claimed when its model, theorems and correspondence run exist"
 ALL = ["C%02d" % i for i in range(1, 21)]
 
 
